@@ -277,6 +277,8 @@ type child struct {
 	parkedCh      chan parkedRep
 	wedged        bool // a wait has expired: the verdict of this case is settled, later waits are short
 
+	prepItems []*item // `prespawn … prep`: launched from inside the subject's prep routine
+
 	shortStop bool       // `stoptimeout short`: held work that ignores the module context outlives the stop timeout
 	tmoMu     sync.Mutex // modules whose stopAllTasks left its wait through the timeout branch since the last lifecycle op
 	tmo       []string
@@ -709,6 +711,10 @@ func (c *child) do(line string) string {
 			}
 			fns[i] = fn
 		}
+		if inner := fns[0]; inner != nil {
+			// work registered by `prespawn … prep` is launched from inside the prep routine (first invocation)
+			fns[0] = func() error { c.launchFromPrep(md); return inner() }
+		}
 		var deps []string
 		if len(f) == 6 {
 			deps = strings.Split(f[5], ",")
@@ -1035,6 +1041,30 @@ func (c *child) do(line string) string {
 		}
 		return "spawn " + entry + " cnt=" + c.counters().String()
 
+	case "prespawn": // prespawn <id> <kind> <outcomes> reg|prep: a worker of the subject module launched before the module is started
+		// reg: right now (after registration, before modules.Start); prep: from inside the module's prep routine
+		if len(f) != 5 || c.started || c.apiMode || c.mod(c.subject) == nil || c.items[f[1]] != nil ||
+			(f[2] != "svc" && f[2] != "startworker" && f[2] != "runworker") || (f[4] != "reg" && f[4] != "prep") ||
+			(f[4] == "prep" && c.mod(c.subject).prep == "-") {
+			return "bad-op"
+		}
+		outs, ok := parseOutcomes(f[3])
+		if !ok {
+			return "bad-op"
+		}
+		it := &item{id: f[1], kind: f[2], outs: outs, entered: make(chan int, 64), release: make(chan struct{}, 64),
+			done: make(chan error, 1), http: make(chan string, 1)}
+		c.items[it.id] = it
+		if f[4] == "prep" {
+			c.prepItems = append(c.prepItems, it)
+			it.held = true // from the prep routine on; a launch that fails there shows at the item's `finish`
+			return "prespawn ok"
+		}
+		if !c.launch(it) {
+			return "bad-op"
+		}
+		return "prespawn " + c.awaitEntry(it)
+
 	case "requeue": // requeue <id> <task-kind> <outcomes>: queue a task again after it ran
 		if len(f) != 4 || c.items[f[1]] == nil || c.items[f[1]].task == nil || !strings.HasPrefix(f[2], "task-") ||
 			!knownKind(f[2]) || !c.startOK || !c.online(c.subject) || c.taskBusy() {
@@ -1146,6 +1176,20 @@ func (c *child) waitCtrlIdle() {
 		st := modules.GetStatus()
 		return st == nil || st.Total.CtrlFuncRunning == 0
 	})
+}
+
+// launchFromPrep runs inside the subject module's prep routine: the items of `prespawn … prep` are launched there.
+func (c *child) launchFromPrep(md *modDecl) {
+	if md.name != c.subject {
+		return
+	}
+	its := c.prepItems
+	c.prepItems = nil
+	for _, it := range its {
+		if c.launch(it) {
+			c.awaitEntry(it)
+		}
+	}
 }
 
 func (c *child) awaitEntry(it *item) string {
